@@ -407,7 +407,7 @@ class UBXReader:
                 raise UBXParseError(
                     (
                         f"Invalid payload length {lenb}"
-                        f" - should be {val2bytes(leni, U2)}"
+                        f" - should be {leni.to_bytes(max(2, (leni.bit_length() + 7) // 8), 'little')}"
                     )
                 )
             if ckm != ckv:
